@@ -222,8 +222,23 @@ func ParseFile(fileSet *file.FileSet, filename string, src interface{}, mode Mod
 //
 // The parameter list, if any, should be a comma-separated list of identifiers.
 func ParseFunction(parameterList, body string) (*ast.FunctionLiteral, error) {
-	src := "(function(" + parameterList + ") {\n" + body + "\n})"
+	// Each half has to be well formed on its own: a comment left open at the
+	// end of the parameter text would otherwise swallow the ") {" of the
+	// wrapper and let the body supply its own.
+	for _, half := range []string{
+		"(function(" + parameterList + "\n) {\n})",
+		"(function() {\n" + body + "\n})",
+	} {
+		if _, err := parseFunctionLiteral(half); err != nil {
+			return nil, err
+		}
+	}
+	return parseFunctionLiteral("(function(" + parameterList + "\n) {\n" + body + "\n})")
+}
 
+// parseFunctionLiteral parses src, which has to be exactly one parenthesised
+// function literal.
+func parseFunctionLiteral(src string) (*ast.FunctionLiteral, error) {
 	p := newParser("", src, 1, nil)
 	program, err := p.parse()
 	if err != nil {
